@@ -40,6 +40,7 @@ CONSTANTS
     SeqAlphaA, SeqLensA,     \* first sequence: all strings over SeqAlphaA with length in SeqLensA ...
     SeqAlphaB, SeqLensB,     \* ... plus all strings over SeqAlphaB with length in SeqLensB
     HomoLens,                \* ... plus the homopolymers "C"*n, n in HomoLens (longer multiples of the block sizes)
+    RunLevel,                \* 0: none, 1: twelve, 2: all 27 names with an interior run of blanks or a tab (RunNames)
     QSeqs,                   \* number of sequences of the ragged family Q (lengths around the wrap width, every order)
     PairAlpha, PairLen       \* pairs of special names (both special): strings of length 1..PairLen over PairAlpha
 
@@ -369,6 +370,19 @@ NonBlank(S) == {s \in S : ~AllBlank(s)}     \* a name has at least one non-blank
 SpecialNames == NonBlank(StringsUpTo(NameAlpha1, 1, NameLen1) \cup StringsUpTo(NameAlpha2, NameLen1 + 1, NameLen2))
 PadLetters == <<"p", "q", "r", "s", "t", "u", "v", "w", "x", "y", "z">>
 LongNames == {SubSeq(PadLetters, 1, L - 2) \o t : L \in LongLens, t \in StringsOfLen(TailAlpha, 2)}
+(* names with white space runs INSIDE: two or three adjacent blanks, or a tab,    *)
+(* between two words; the words include digits only ('ref  123' looks like a     *)
+(* PHYLIP/PAML header) and residues only ('GTGT  GTGT' looks like sequence; G    *)
+(* and T because the harness instantiates the residues A, C per molecular type). *)
+(* Every format must hand such a name back verbatim (PHYLIP: its first 9         *)
+(* characters): each parser strips the EDGES of the label only.  (A cfg file     *)
+(* cannot spell a tab, hence the definition here.)                               *)
+TAB == "\t"
+RunSeps == {<<SP, SP>>, <<SP, SP, SP>>, <<TAB>>}
+RunW1(level) == {<<"r", "e", "f">>, <<"G", "T", "G", "T">>} \cup (IF level > 1 THEN {<<"n">>} ELSE {})
+RunW2(level) == {<<"1", "2", "3">>, <<"G", "T", "G", "T">>} \cup (IF level > 1 THEN {<<"c", "1">>} ELSE {})
+RunNames == IF RunLevel = 0 THEN {}
+            ELSE {w1 \o sp \o w2 : w1 \in RunW1(RunLevel), sp \in RunSeps, w2 \in RunW2(RunLevel)}
 PairNames == NonBlank(StringsUpTo(PairAlpha, 1, PairLen))
 
 PlainNames == << <<"b">>, <<"c", "c">>, <<"d">> >>
@@ -427,7 +441,7 @@ CasesOf(sl) ==
         CASE sl.fam = "N" ->
                IF sl.p > sl.n \/ (sl.n = 3 /\ sl.p # 2) THEN {}
                ELSE {Case("N", sl.fmt, sl.block, [i \in 1..sl.n |-> IF i = sl.p THEN s ELSE PlainNames[i]],
-                          SubSeq(FixedSeqs, 1, sl.n), FALSE) : s \in SpecialNames \cup LongNames}
+                          SubSeq(FixedSeqs, 1, sl.n), FALSE) : s \in SpecialNames \cup LongNames \cup RunNames}
           [] sl.fam = "S" ->
                {Case("S", sl.fmt, sl.block, SubSeq(BaseNames, 1, sl.n), SubSeq(Derived(s), 1, sl.n), FALSE)
                     : s \in FirstSeqs}
